@@ -144,7 +144,72 @@ def org(a):          # ghost, prover only
     raise NotImplementedError("org() is a ghost function (prover only)")
 
 
-RUNTIME_VOCAB = dict(is_permutation=is_permutation, implies=implies, permutation=permutation, is_sorted=is_sorted, pairs_kept=pairs_kept)
+# ---- byte-order vocabulary on real numpy arrays (run-time meaning of esvc/bomodel.py's spec words)
+def _bo_field(a, f=None):
+    return a if f is None else a[f]
+
+
+def bo_fields(a):
+    return [None] if a.dtype.names is None else list(a.dtype.names)
+
+
+def bo_names(a):
+    return a.dtype.names
+
+
+def bo_order(a, f=None):
+    return {"<": 0, ">": 1, "=": 2, "|": 3}[_bo_field(a, f).dtype.base.byteorder]
+
+
+def bo_bytes(a, f=None):
+    return _bo_field(a, f).tobytes()
+
+
+def bo_swapped(a, f=None):
+    return _bo_field(a, f).byteswap().tobytes()
+
+
+def bo_value(a, f=None):
+    import numpy as np
+    x = _bo_field(a, f)
+    if x.dtype.base.kind in "SUVO":
+        return x.tolist()
+    return [repr(v) for v in np.ravel(x.astype(x.dtype.base.newbyteorder("=") if x.dtype.subdtype is None else
+                                               np.dtype((x.dtype.base.newbyteorder("="), x.dtype.shape)))).tolist()]
+
+
+def machine_little():
+    import sys
+    return sys.byteorder == "little"
+
+
+def bo_big(a, f=None):
+    o = bo_order(a, f)
+    return o == 1 or (o == 2 and not machine_little())
+
+
+def bo_little(a, f=None):
+    o = bo_order(a, f)
+    return o == 0 or (o == 2 and machine_little())
+
+
+def bo_native(a, f=None):
+    return bo_little(a, f) if machine_little() else bo_big(a, f)
+
+
+def same_object(a, b):
+    return a is b
+
+
+def shares_buffer(a, b):
+    import numpy as np
+    return bool(np.shares_memory(a, b))
+
+
+RUNTIME_VOCAB = dict(bo_fields=bo_fields, bo_names=bo_names, bo_order=bo_order, bo_bytes=bo_bytes, bo_swapped=bo_swapped,
+                     bo_value=bo_value, machine_little=machine_little, bo_big=bo_big, bo_little=bo_little, bo_native=bo_native,
+                     same_object=same_object, shares_buffer=shares_buffer,
+                     is_permutation=is_permutation, implies=implies, permutation=permutation, is_sorted=is_sorted, pairs_kept=pairs_kept)
 
 
 def load_specs(specdir=None):
